@@ -85,6 +85,14 @@ pub fn load_op_types(doc_text: &str, cfg: &nitrogql_config_file::Config) -> Resu
     Ok(Loaded { world, results: al.iter().map(|a| a.1.clone()).collect(), variables: al.iter().map(|a| a.2.clone()).collect(), dts })
 }
 
+/// one representative value of each custom scalar's configured output type
+pub fn scalar_values() -> BTreeMap<String, Val> {
+    let mut m = BTreeMap::new();
+    m.insert("Date".to_string(), Val::Str("§".into()));
+    m.insert("Stamp".to_string(), Val::Atom("OO".into()));
+    m
+}
+
 // ---------------------------------------------------------------- Ref_local membership (C02)
 
 struct Ref<'a> {
@@ -96,9 +104,11 @@ struct Ref<'a> {
 
 impl<'a> Ref<'a> {
     fn scalar_member(&self, name: &str, v: &Val) -> bool {
-        // the scalar's configured *output* TypeScript type, as the schema file declares it
-        match self.world.exported("schema", &["__OperationOutput", name]) {
-            Ok(t) => self.world.member(v, &t).unwrap_or(false),
+        // the scalar's configured *output* TypeScript type (the harness's own table, not the subject's output)
+        let Some(ts) = scalar_ts(name) else { return false };
+        let w = World::new();
+        match crate::rts::parse_type(ts[1]).and_then(|te| w.eval_in_empty(&te)) {
+            Ok(t) => w.member(v, &t).unwrap_or(false),
             Err(_) => false,
         }
     }
@@ -469,7 +479,7 @@ fn check_doc(prop: &str, rep: &Reporter, sch: &Sch, doc: &ExecDoc, text: &str, c
             for parent in &parents {
                 for mask in 0..(1u32 << vars.len()) {
                     let sigma: BTreeMap<String, bool> = vars.iter().enumerate().map(|(i, n)| (n.clone(), mask >> i & 1 == 1)).collect();
-                    let ex = Exec { sch, frags: frags.clone(), sigma: sigma.clone(), scalars: BTreeMap::new() };
+                    let ex = Exec { sch, frags: frags.clone(), sigma: sigma.clone(), scalars: scalar_values() };
                     // data choices: deviation-bounded exploration, sequential (documents are the parallel axis)
                     let mut level: Vec<Dev> = vec![Dev::default()];
                     for d in 0..=data_dev {
@@ -511,7 +521,7 @@ fn check_doc(prop: &str, rep: &Reporter, sch: &Sch, doc: &ExecDoc, text: &str, c
             if en.truncated {
                 cnt.truncated_docs.fetch_add(1, Ordering::Relaxed);
             }
-            let mut r = Ref { sch, ex: Exec { sch, frags: frags.clone(), sigma: BTreeMap::new(), scalars: BTreeMap::new() }, vars: vars.clone(), world: &loaded.world };
+            let mut r = Ref { sch, ex: Exec { sch, frags: frags.clone(), sigma: BTreeMap::new(), scalars: scalar_values() }, vars: vars.clone(), world: &loaded.world };
             for m in &ms {
                 cnt.members.fetch_add(1, Ordering::Relaxed);
                 // a member must be producible for SOME parent object the definition can be executed on
